@@ -7,6 +7,7 @@ steps with reflecting boundaries against exact binomial tail bounds at a total f
 scheme, `diffuse_const` and the boundary treatment are pinned bit-exactly by C05's chemicals cases
 (re-run here on the mixing configurations) and `ladis` by draw replay."""
 import math
+import os
 import numpy as np
 from . import ibmrun, c05
 from .common import Driver, F, I, unF, RngRecorder
@@ -16,7 +17,16 @@ RULE = ("uniformity: N particles on a stratified grid over [0,H], 1..3 steps wit
         "exact two-sided binomial bound per bin (Bonferroni over all tests of the run, total 1e-9); LaBolle: linear, step "
         "and constant profiles with sub-steps / coarse sampling / cap inside the stability bound, criterion "
         "||post/pre-1|| < 0.1 on 10 bins; variance: N interior particles, sample variance within 7.5 estimator-sigmas of "
-        "2*K*dt. Non-trivial: every statistical experiment; distinct by (module, parameters).")
+        "2*K*dt. Status flags / histories through IBM.update_ibm (sedimentation, mine): N particles with `active` 0/1/2 "
+        "given at release (float / integer array, booleans of the real LADiM State, mine also without the variable) or "
+        "assigned by the module in a history (on the bed of a shallow basin -> 1..3 strong-current updates -> carried over "
+        "a deep calm basin; or 150 strong-current updates -> the current slackens) plus a freshly released control group; "
+        "critical stress absent / off / number / {method: constant} / grain-size raster (bin, poly); mixing number / "
+        "{method: constant} / bounded_linear (capped region); ONE observed update in calm / strong / patchy current; per "
+        "(origin, status before the step) group of >= 2000 interior suspended particles the sample variance of the random "
+        "displacement against 2*K*dt by the exact chi-square bound (same Bonferroni budget); sedimentation IBM uniformity "
+        "for stratified clouds of status 1 and 2; sand eel larvae released as such / hatched by the module. "
+        "Non-trivial: every statistical experiment; distinct by (module, parameters).")
 ASSUMPTIONS = ["np.random.rand / randn / normal are uniform / standard normal (numpy legacy generator, trusted)",
                "measure-theoretic step 'piecewise isometry with constant preimage count => uniform law invariant' is cited, not formalised"]
 ALPHA_TOTAL = 1e-9
@@ -230,6 +240,336 @@ def variances(ctx):
             variance_ok(ctx, name, disp, 2 * Kuse * dt, 3.0, "ladim_plugins/%s/ibm.py" % name, dict(p, module=name, K=Kuse))
 
 
+# =====================================================================================================================
+# Particle status flags and multi-step histories (through the public IBM.update_ibm)
+#
+# The sedimentation and mine modules carry a per-particle status `active`: 0 = lying on the bed, 1 = in suspension,
+# 2 = in suspension after having been buried and resuspended (the marker the modules assign themselves at the end of
+# `update_ibm`).  Sand eel: 0 = egg / settled juvenile, 1 = drifting larva (assigned by the development functions).
+# The property speaks about the tracer in the water column, i.e. EVERY particle that is in suspension, whatever its
+# status flag says about its past and whatever the local bottom stress / critical stress is in the step observed.
+# Experiments below: statuses given at release (0/1/2 in a float or integer array, booleans of the real LADiM State,
+# for mine also a state without the variable) or produced by the module itself in a history (on the bed -> strong
+# current resuspends -> the particle drifts into deep calm water, or the current slackens), then ONE observed update in
+# calm / strong / patchy current, with the critical stress absent / a number / a {method: constant} mapping / a
+# grain-size raster (bin and poly), the mixing a number / {method: constant} / bounded_linear (capped region, where the
+# coefficient is the constant max_diff).
+# =====================================================================================================================
+
+KAPPA = 0.41            # von Karman constant of the bounded_linear mixing (module documentation)
+DRAG = 0.003            # bottom drag coefficient: ustar^2 = DRAG * |u_bottom|^2, tau = 1000 * ustar^2
+
+
+def chi2_variance_ok(ctx, label, disp, expected, site, params):
+    """displacements that are normal with variance `expected` (all modules here draw randn / normal): (n-1) s^2 /
+    expected is chi-square with n-1 degrees of freedom EXACTLY, so the two-sided test at level ALPHA_TOTAL / MAX_TESTS
+    has an exact false-alarm probability; it shares the Bonferroni budget of the binomial tests (the run makes far
+    fewer than MAX_TESTS statistical tests: < 1500 in the thorough tier)."""
+    from scipy.stats import chi2
+    n = len(disp)
+    var = float(np.var(disp, ddof=1))
+    stat = (n - 1) * var / expected
+    a = ALPHA_TOTAL / MAX_TESTS / 2
+    ok = not (chi2.cdf(stat, n - 1) < a or chi2.sf(stat, n - 1) < a)
+    ctx.oracle(ok, "C20.%s.variance" % label, site,
+               "group %s: sample variance %.6g of the random displacement of %d interior suspended particles vs 2*K*dt = %.6g "
+               "(ratio %.4f; exact chi-square bound, level %.1e)" % (params.get("group"), var, n, expected, var / expected, 2 * a),
+               dict(params, variance=var, expected=expected, n=n))
+
+
+class BasinEnv:
+    """shallow basin (x < 10, depth hs) next to a deep one (x >= 10, depth hd); bottom current speed by pattern:
+    'calm' = sc everywhere, 'strong' = ss everywhere, 'patchy' = sc south of y = 10 and ss north of it;
+    (lon, lat) = (x, y)"""
+
+    def __init__(self, hs, hd, sc, ss):
+        self.hs, self.hd, self.sc, self.ss = hs, hd, sc, ss
+        self.pattern = "calm"
+
+    def depth(self, x, y):
+        return np.where(np.asarray(x, float) < 10.0, self.hs, self.hd)
+
+    def speed(self, x, y):
+        y = np.asarray(y, float)
+        if self.pattern == "calm":
+            return np.zeros_like(y) + self.sc
+        if self.pattern == "strong":
+            return np.zeros_like(y) + self.ss
+        return np.where(y < 10.0, self.sc, self.ss)
+
+    def velocity(self, x, y, z, tstep=0):
+        s = self.speed(x, y)
+        return s, np.zeros_like(s)
+
+    def grid(self):
+        return Obj(sample_depth=self.depth, lonlat=lambda x, y: (np.asarray(x, float) + 0.0, np.asarray(y, float) + 0.0))
+
+    def forcing(self):
+        return Obj(velocity=self.velocity, forcing=Obj(wvel=lambda x, y, z, *a, **k: np.zeros_like(np.asarray(z, float))))
+
+
+def write_grain_raster(ctx, tmp):
+    """5 x 5 grain-size raster with cell centres at lon, lat = 0, 5, .., 20 (stub grid: lon = x, lat = y).
+    Critical stresses it can produce: bin 0.06 / 0.12 / 0.32, poly between 0.0591 and 0.4416 (grain size 250) or the
+    default 0.12: all above tau(0.05 m/s) = 0.0075 and below tau(1 m/s) = 3."""
+    import xarray as xr
+    c = np.arange(5) * 5.0
+    vals = np.array([[ctx.rng.choice([np.nan, 0.0, 30.0, 100.0, 250.0]) for _ in range(5)] for _ in range(5)])
+    p = os.path.join(tmp, "grain%d.nc" % ctx.rng.randrange(10 ** 9))
+    xr.Dataset({"grain_size": (("latitude", "longitude"), vals)}, coords=dict(latitude=c, longitude=c)).to_netcdf(p)
+    return p
+
+
+def make_flag_state(carrier, arr, dt, timestep):
+    """carrier: 'float' / 'int' = stub state whose `active` array keeps 0/1/2; 'bool' = the real LADiM State (coerces
+    `active` to booleans); 'none' = a state without the variable (mine only)"""
+    arr = {k: np.array(v) for k, v in arr.items()}
+    n = len(arr["X"])
+    act = arr.pop("active")
+    if carrier == "bool":
+        return real_state(dt=dt, timestep=timestep, active=act != 0, **arr)
+    if carrier == "none":
+        return NumState(alive=np.ones(n, bool), pid=np.arange(n), dt=dt, timestep=timestep, **arr)
+    return NumState(active=act.astype(float if carrier == "float" else np.int64), alive=np.ones(n, bool), pid=np.arange(n),
+                    dt=dt, timestep=timestep, **arr)
+
+
+def state_arrays(st, carrier):
+    d = dict(X=np.array(st["X"], float), Y=np.array(st["Y"], float), Z=np.array(st["Z"], float),
+             age=np.array(st["age"], float), sink_vel=np.array(st["sink_vel"], float))
+    d["active"] = np.ones(len(d["X"])) if carrier == "none" else np.array(st["active"]).astype(float)
+    return d
+
+
+def flag_history_experiment(ctx, module, tmp):
+    rng = ctx.rng
+    N = ctx.n(40000, 200000)
+    dt = rng.choice([60.0, 600.0])
+    K = rng.choice([1e-4, 1e-3, 1e-2])
+    sigma = math.sqrt(2 * K * dt)
+    site = "ladim_plugins/%s/ibm.py" % module
+    M = ibmrun.mod(module)
+    # ---- configuration
+    if module == "sedimentation":
+        carrier = rng.choice(["float", "float", "int", "bool"])
+        mixform = rng.choice(["number", "dict", "bounded_linear"])
+        mixing = {"number": K, "dict": dict(method="constant", value=K), "bounded_linear": dict(method="bounded_linear", max_diff=K)}[mixform]
+        tform = rng.choice(["absent", "number", "dict", "grain_size_bin", "grain_size_poly"])
+    else:
+        carrier = rng.choice(["float", "float", "int", "bool", "none"])
+        mixform = "number"
+        mixing = K
+        # a state without the `active` variable is a valid set-up only without resuspension (`resuspend` needs it)
+        tform = rng.choice(["absent", "off"]) if carrier == "none" else rng.choice(["absent", "off", "number", "number"])
+    tc = rng.choice([0.06, 0.12, 0.32, 1.0])
+    conf = dict(lifespan=1e12, vertical_mixing=mixing)
+    if tform in ("number", "dict"):
+        conf["taucrit"] = tc if tform == "number" else dict(method="constant", value=tc)
+        s_at = math.sqrt(tc / (1000 * DRAG))
+        sc, ss = rng.choice([0.0, 0.3 * s_at, 0.9 * s_at]), rng.choice([1.1 * s_at, 2 * s_at + 0.05])
+    elif tform.startswith("grain"):
+        conf["taucrit"] = dict(method=tform, source=write_grain_raster(ctx, tmp), varname="grain_size")
+        sc, ss = rng.choice([0.0, 0.05]), 1.0
+    else:
+        if tform == "off":
+            conf["taucrit"] = rng.choice([1000, 5000.0])
+        sc, ss = rng.choice([0.0, 0.05]), 1.0
+    if mixform == "bounded_linear" and sc == 0.0:
+        sc = 0.05 if not tform in ("number", "dict") else 0.3 * s_at      # the coefficient is kappa*ustar*(h-z): needs a current
+    resusp = tform in ("number", "dict", "grain_size_bin", "grain_size_poly")
+    if module == "mine":
+        conf["land_collision"] = "freeze"
+        if rng.random() < 0.5:
+            conf["vertical_advection"] = rng.choice([False, True])       # the stub's vertical velocity is 0
+        config = dict(dt=dt, ibm=conf, output_instance=[], nc_attributes={})
+    else:
+        config = dict(dt=dt, ibm=conf)
+    ibm = M.IBM(config)
+    hist = rng.choice(["released", "drift", "slack"]) if (resusp and carrier != "none") else "released"
+    if mixform == "bounded_linear" and hist == "slack":
+        hist = "drift"
+    observe = rng.choice(["calm", "calm", "strong", "patchy"])
+    hd = 5000.0
+    hs = 40 * sigma if hist == "slack" else rng.choice([200.0, 400.0])
+    env = BasinEnv(hs, hd, sc, ss)
+    grid, forcing = env.grid(), env.forcing()
+    rs = np.random.RandomState(ctx.sub_seed())            # bulk per-particle inputs (positions, sinking velocities)
+    sinks = [1e-7, 1e-6, 1e-5]
+    params = dict(module=module, dt=dt, K=K, N=N, carrier=carrier, mixing=repr(mixing), taucrit=repr(conf.get("taucrit")).replace(tmp + os.sep, ""),
+                  calm_speed=sc, strong_speed=ss, history=hist, observed_step=observe, depths=(hs, hd))
+
+    def update(st, rec):
+        st.timestep = st.timestep + 1
+        ibm.update_ibm(grid, st, forcing)
+        del rec.log[:]                                   # long histories: do not keep the draws
+
+    with RngRecorder(ctx.sub_seed()) as rec:
+        if hist == "released":
+            # statuses as the release file gives them: 1 and 2 in the deep basin's interior, 0 on its bed
+            x = rs.uniform(11, 19, N); y = rs.uniform(2, 19, N)
+            flag = rs.choice([0.0, 1.0, 2.0], size=N, p=[0.1, 0.45, 0.45])
+            z = np.where(flag == 0, hd, rs.uniform(1000.0, 4000.0, N))
+            sink = rs.choice(sinks + ([0.0] if module == "sedimentation" else []), size=N)   # 0 = "draw one for me"
+            origin = np.where(flag == 0, -1, 0)
+            st = make_flag_state(carrier, dict(X=x, Y=y, Z=z, active=flag, age=np.zeros(N), sink_vel=sink), dt, 0)
+        else:
+            # on the bed of the shallow basin, status 0; the strong current resuspends (the module assigns the statuses)
+            x = rs.uniform(2, 9, N); y = rs.uniform(2, 19, N)
+            st = make_flag_state(carrier, dict(X=x, Y=y, Z=np.full(N, hs), active=np.zeros(N), age=np.zeros(N),
+                                               sink_vel=rs.choice(sinks, size=N)), dt, 0)
+            env.pattern = "strong"
+            for _ in range(rng.randrange(1, 4) if hist == "drift" else 150):
+                update(st, rec)
+            a = state_arrays(st, carrier)
+            if hist == "drift":
+                a["X"] = a["X"] + 9.0                    # the tracker carries them over the deep basin
+            # control group: fresh release (status 1) at the same depths and places
+            cand = np.flatnonzero(a["active"] != 0)
+            M2 = N // 2 if len(cand) else 0
+            pick = cand[rs.randint(0, len(cand), M2)] if M2 else np.zeros(0, int)
+            for k in a:
+                a[k] = np.concatenate([a[k], a[k][pick]])
+            a["active"][N:] = 1.0; a["age"][N:] = 0.0
+            origin = np.concatenate([np.ones(N, int), np.zeros(M2, int)])
+            st = make_flag_state(carrier, a, dt, st.timestep)
+        # ---- the observed update
+        env.pattern = observe
+        b = state_arrays(st, carrier)
+        update(st, rec)
+        c = state_arrays(st, carrier)
+    H = env.depth(b["X"], b["Y"])
+    w = c["sink_vel"]                                     # sedimentation draws it for particles released with 0
+    disp = c["Z"] - b["Z"] - dt * w                       # random part: the sinking dt*w is deterministic (rounding ~1e-12 m)
+    interior = (b["Z"] > 9 * sigma) & (b["Z"] < H - 9 * sigma) & (b["Z"] + dt * w < H - 9 * sigma)
+    if mixform == "bounded_linear":
+        # coefficient kappa*ustar*(h - z) capped at max_diff: keep particles well inside the capped region (factor 2)
+        ustar = math.sqrt(DRAG) * env.speed(b["X"], b["Y"])
+        interior &= KAPPA * ustar * (H - b["Z"]) > 2 * K
+    suspended = b["active"] != 0
+    ctx.case(key=("flags", module, dt, K, carrier, mixform, tform, tc, sc, ss, hist, observe), nontrivial=True, sample=params)
+    ctx.branch("flags.%s.history_%s" % (module, hist))
+    ctx.branch("flags.%s.taucrit_%s" % (module, tform))
+    ctx.branch("flags.%s.mixing_%s" % (module, mixform))
+    ctx.branch("flags.%s.carrier_%s" % (module, carrier))
+    ctx.branch("flags.%s.observed_%s" % (module, observe))
+    tested = 0
+    for og, oname in ((0, "released"), (1, "resuspended_by_module")):
+        for f in (1.0, 2.0):
+            sel = interior & suspended & (origin == og) & (b["active"] == f)
+            n = int(sel.sum())
+            if n < 2000:
+                continue
+            tested += 1
+            ctx.branch("flags.%s.group_%s_status%d" % (module, oname, int(f)))
+            chi2_variance_ok(ctx, "%s_ibm" % module, disp[sel], 2 * K * dt, site,
+                             dict(params, group="%s, status %d before the step" % (oname, int(f))))
+    if not tested:
+        ctx.branch("flags.%s.no_group_large_enough" % module)
+
+
+def flag_uniformity(ctx):
+    """sedimentation IBM with constant mixing (two reflecting boundaries): a well-mixed cloud of particles of status 1 and
+    a well-mixed cloud of status 2, each on a stratified grid over [0, H], stay well mixed over 1..3 updates.  The sinking
+    velocity cannot be switched off (0 means 'draw one'): it is 1e-12 m/s, i.e. a shift of <= 2e-9 m in total, which
+    moves < 0.01 particles across a bin edge in expectation (N * 2e-9 / (H/10)) - far below the resolution of the
+    binomial bound."""
+    M = ibmrun.mod("sedimentation")
+    n = ctx.n(20000, 200000)
+    for rep in range(ctx.n(3, 8)):
+        rng = ctx.rng
+        H = rng.choice([10.0, 40.0, 2.5]); frac = rng.choice([0.15, 0.4, 0.8]); steps = rng.choice([1, 2, 3]); dt = rng.choice([60.0, 600.0])
+        sig = frac * H / 4
+        value = sig ** 2 / (2 * dt)
+        carrier = rng.choice(["float", "int", "bool"])
+        tform = rng.choice(["absent", "number", "dict"])
+        tc = rng.choice([0.06, 0.12, 0.32])
+        conf = dict(lifespan=1e12, vertical_mixing=value if rng.random() < 0.5 else dict(method="constant", value=value))
+        if tform != "absent":
+            conf["taucrit"] = tc if tform == "number" else dict(method="constant", value=tc)
+        s_at = math.sqrt(tc / (1000 * DRAG))
+        env = BasinEnv(H, H, rng.choice([0.0, 0.5 * s_at]), 2 * s_at + 0.05)
+        env.pattern = rng.choice(["calm", "calm", "strong", "patchy"])
+        flag = np.concatenate([np.ones(n), np.full(n, 2.0)])
+        z = np.concatenate([strat(n, 0, H), strat(n, 0, H)])
+        rs = np.random.RandomState(ctx.sub_seed())
+        st = make_flag_state(carrier, dict(X=rs.uniform(2, 9, 2 * n), Y=rs.uniform(2, 19, 2 * n), Z=z, active=flag, age=np.zeros(2 * n),
+                                           sink_vel=np.full(2 * n, 1e-12)), dt, 0)
+        ibm = M.IBM(dict(dt=dt, ibm=conf))
+        with RngRecorder(ctx.sub_seed()) as rec:
+            for _ in range(steps):
+                st.timestep = st.timestep + 1
+                ibm.update_ibm(env.grid(), st, env.forcing())
+                del rec.log[:]
+        params = dict(module="sedimentation IBM", H=H, value=value, dt=dt, steps=steps, N=n, sigma=sig, carrier=carrier,
+                      taucrit=repr(conf.get("taucrit")), current=env.pattern)
+        ctx.case(key=("flaguni", H, value, dt, steps, carrier, tform, tc, env.pattern), nontrivial=True, sample=params if rep == 0 else None)
+        zz = np.array(st["Z"], float)
+        for g, f in ((slice(0, n), 1), (slice(n, 2 * n), 2)):
+            ctx.branch("flags.sedimentation.uniformity_status%d" % f)
+            uniform_test(ctx, "sedimentation_ibm", zz[g], H, "ladim_plugins/sedimentation/ibm.py", dict(params, group="status %d at release" % f))
+
+
+def sandeel_history(ctx):
+    """sand eel: the drifting stage is the larva (1 <= stage < 2, active = 1).  Larvae released as such and larvae hatched
+    by the module itself in the previous update (eggs at stage 1 - 1e-9) are both in suspension: displacement variance
+    2*D*dt for interior ones.  (Existing experiments: stage 3 with the flag forced to 1 only.)"""
+    N = ctx.n(40000, 200000)
+    M = ibmrun.mod("sandeel")
+    for rep in range(ctx.n(2, 5)):
+        rng = ctx.rng
+        dt = rng.choice([60.0, 600.0]); K = rng.choice([1e-4, 1e-3, 1e-2]); sigma = math.sqrt(2 * K * dt)
+        carrier = rng.choice(["bool", "float", "int"])
+        H = 5000.0
+        rs = np.random.RandomState(ctx.sub_seed())
+        kind = rs.choice(4, size=N, p=[0.4, 0.4, 0.1, 0.1])     # 0 egg about to hatch, 1 larva, 2 young egg, 3 settled juvenile
+        stage = np.choose(kind, [1 - 1e-9, 0.0, 0.1, 2.5]) + np.where(kind == 1, rs.uniform(1.0, 1.5, N), 0.0)
+        act = (kind == 1)
+        arrs = dict(X=rs.uniform(2, 19, N), Y=rs.uniform(2, 19, N), Z=rs.uniform(1000.0, 4000.0, N), stage=stage,
+                    hatch_rate=rs.uniform(0.01, 1, N))
+        if carrier == "bool":
+            st = real_state(dt=dt, active=act, **arrs)
+        else:
+            st = NumState(active=act.astype(float if carrier == "float" else np.int64), alive=np.ones(N, bool), pid=np.arange(N), dt=dt,
+                          timestep=0, **arrs)
+        env = LinEnv(h0=H)
+        g = env.grid(); g.grid = Obj(i0=0, j0=0)
+        f = env.forcing(); f.forcing = Obj(temp=np.full((1, 32, 32), 7.0))
+        ibm = M.IBM(dict(dt=dt, ibm=dict(vertical_mixing=K, max_depth=1e5)))
+        with RngRecorder(ctx.sub_seed()) as rec:
+            for _ in range(rng.randrange(1, 4)):
+                ibm.update_ibm(g, st, f)
+                del rec.log[:]
+            z0 = np.array(st["Z"], float); a0 = np.array(st["active"]).astype(float); s0 = np.array(st["stage"], float)
+            ibm.update_ibm(g, st, f)
+        disp = np.array(st["Z"], float) - z0
+        interior = (z0 > 9 * sigma) & (z0 < H - 9 * sigma)
+        larva = (s0 >= 1) & (s0 < 1.9)                         # a larva before the step, far from metamorphosis (growth/step < 1e-3)
+        params = dict(module="sandeel", dt=dt, K=K, N=N, carrier=carrier)
+        ctx.case(key=("flags", "sandeel", dt, K, carrier), nontrivial=True, sample=params if rep == 0 else None)
+        ctx.branch("flags.sandeel.carrier_%s" % carrier)
+        for kd, name in ((0, "hatched_by_module"), (1, "released_as_larva")):
+            sel = interior & larva & (kind == kd)
+            if int(sel.sum()) < 2000:
+                ctx.branch("flags.sandeel.group_%s_too_small" % name)
+                continue
+            ctx.branch("flags.sandeel.group_%s" % name)
+            chi2_variance_ok(ctx, "sandeel_ibm", disp[sel], 2 * K * dt, "ladim_plugins/sandeel/ibm.py", dict(params, group=name))
+
+
+def flag_histories(ctx):
+    import tempfile, shutil, logging
+    tmp = tempfile.mkdtemp(prefix="verif_c20_")
+    try:
+        for _ in range(ctx.n(8, 30)):
+            flag_history_experiment(ctx, "sedimentation", tmp)
+        for _ in range(ctx.n(5, 16)):
+            flag_history_experiment(ctx, "mine", tmp)
+    finally:
+        shutil.rmtree(tmp, ignore_errors=True)
+    flag_uniformity(ctx)
+    sandeel_history(ctx)
+
+
 def ladis_corr(ctx, drv):
     M = ibmrun.mod("sedimentation")
     pend = []
@@ -272,6 +612,9 @@ def run(ctx):
     # scheme pinned bit-exactly (LaBolle predictor/corrector, reflections, sub-steps)
     if not getattr(ctx, "widened", False):
         c05.run(ctx, modules=None, oracle=lambda *a: None)
+    # status flags / multi-step histories through IBM.update_ibm (last, so that the inputs of the experiments above are
+    # the same as before these were added)
+    flag_histories(ctx)
 
 
 def replay(payload):
